@@ -455,8 +455,7 @@ fn vary(rng: &mut Rng, s: &Strat) -> Strat {
 fn emit_topology(rng: &mut Rng, peers: &[PeerSpec], per_topo: usize, tokens_per: usize, emit: &mut dyn FnMut(String)) {
     let topo = fmt_topology(peers);
     let toks = query_tokens(peers);
-    let mut dcs = dcs_of(peers);
-    dcs.push(99); // unknown datacenter
+    let dcs = dcs_of(peers);
     for _ in 0..per_topo {
         let strat = gen_strategy(rng, peers);
         // keyspace strategies: none / exactly this one / variations / unrelated / a mix
@@ -472,7 +471,13 @@ fn emit_topology(rng: &mut Rng, peers: &[PeerSpec], per_topo: usize, tokens_per:
         let strat_s = fmt_strategy(&strat);
         for _ in 0..tokens_per {
             let tok = if rng.chance(1, 12) { rng.i64_boundary() } else { *rng.pick(&toks) };
-            let dc = if rng.chance(1, 2) { "-".to_owned() } else { rng.pick(&dcs).to_string() };
+            let dc = if rng.chance(1, 2) {
+                "-".to_owned()
+            } else if rng.chance(1, 12) || dcs.is_empty() {
+                "99".to_owned() // unknown datacenter
+            } else {
+                rng.pick(&dcs).to_string()
+            };
             emit(format!("q {} {} {} {} {}", topo, pre_s, strat_s, dc, tok));
         }
     }
@@ -514,7 +519,7 @@ fn exhaustive(nodes: usize, max_dcs: u32, max_racks: u32, max_rf: usize, stride:
         }
         for s in &strats {
             let ss = fmt_strategy(s);
-            for pre in ["-".to_owned(), ss.clone(), fmt_strategy(&vary_det(s, 1)), fmt_strategy(&vary_det(s, 2))] {
+            for pre in ["-".to_owned(), ss.clone(), fmt_strategy(&vary_det(s, 1)), fmt_strategy(&vary_det(s, 2)), fmt_strategy(&vary_down(s))] {
                 for q in 0..=nodes {
                     for dc in ["-", "0", "1"] {
                         counter += 1;
@@ -526,6 +531,14 @@ fn exhaustive(nodes: usize, max_dcs: u32, max_racks: u32, max_rf: usize, stride:
                 }
             }
         }
+    }
+}
+
+fn vary_down(s: &Strat) -> Strat {
+    match s {
+        Strat::Simple(rf) => Strat::Simple(rf.saturating_sub(1)),
+        Strat::Nts(v) => Strat::Nts(v.iter().map(|(d, rf)| (*d, rf.saturating_sub(1))).collect()),
+        o => o.clone(),
     }
 }
 
@@ -562,14 +575,15 @@ pub fn generate(rng: &mut Rng, tier: Tier, emit0: &mut dyn FnMut(String)) {
     let quick = tier == Tier::Quick;
     // exhaustive small universes
     if quick {
-        exhaustive(3, 2, 2, 3, 7, emit);
-        exhaustive(4, 2, 2, 4, 97, emit);
+        exhaustive(3, 2, 2, 3, 3, emit);
+        exhaustive(4, 2, 2, 4, 31, emit);
     } else {
+        exhaustive(2, 2, 2, 4, 1, emit);
         exhaustive(3, 2, 2, 4, 1, emit);
-        exhaustive(4, 2, 2, 4, 5, emit);
+        exhaustive(4, 2, 2, 4, 1, emit);
         exhaustive(4, 1, 2, 5, 1, emit);
     }
-    let topologies = if quick { 1200 } else { 24_000 };
+    let topologies = if quick { 5000 } else { 80_000 };
     for i in 0..topologies {
         let shape = match i % 4 {
             0 => TopoShape { max_nodes: 5, max_dcs: 2, max_racks: 2, max_vnodes: 2, dups: 0 },
